@@ -7,7 +7,7 @@ import (
 
 func init() {
 	Register(&Scenario{Prop: "C02", Name: "converge-after-heal", Run: scenC02, SoftParks: true, Weight: 1,
-		Rule: "2-4 writer replicas of one database (type drawn per run); 3-12 (thorough 3-36) writes interleaved with kernel steps under drop/dup/reorder of announcements and direct-channel payloads, link cuts/heals, crash or clean stop + restart (open + Load(-1)); final phase: writes stop, crashed peers restart, every link is cut until both sides observed it, then all links heal and no further fault occurs; oracle: within 180 virtual seconds and 6000 kernel steps the world is at rest and every replica holds every acknowledged write and all replicas show equal state; non-trivial = at least one fault fired and at least one entry reached some replica only after the final heal"})
+		Rule: "2-4 writer replicas of one database (type drawn per run); 3-12 (thorough 3-36) writes interleaved with kernel steps under drop/dup/reorder of announcements and direct-channel payloads, link cuts/heals, crash or clean stop + restart (open + Load(-1)); final phase: writes stop, crashed peers restart, every link is cut until both sides observed it, then all links heal and no further fault occurs; oracle: within 180 virtual seconds and 6000 kernel steps the world is at rest and every replica holds every acknowledged write and all replicas show equal state; non-trivial = at least one fault fired and at least one entry reached some replica only after the final heal; writes include bursts of 2-3 concurrent writers on one replica (stepped through the write path, or free-running under seeded yields)"})
 }
 
 func scenC02(k *K) {
@@ -32,7 +32,14 @@ func scenC02(k *K) {
 		return s["drop"] + s["dup"] + s["reorder"] + s["cut"] + s["crash"] + s["clean-stop"] + s["crash@effect"]
 	}
 	for i := 0; i < nops; i++ {
-		switch k.C.Weighted([]int{8, 1, 2}) {
+		switch k.C.Weighted([]int{8, 1, 2, 2}) {
+		case 3:
+			// 2-3 concurrent writers on one replica, stepped through the write path (or
+			// free-running under seeded yields) while announcements are lost or held
+			node := k.C.Intn(n)
+			if c.Stores[node] != nil {
+				c.WriteBurst(node, k.C.Range(2, 3), k.C.Chance(1, 2))
+			}
 		case 0:
 			node := k.C.Intn(n)
 			if c.Stores[node] != nil {
